@@ -1,6 +1,8 @@
 """Per-property configuration: which units decide it, at what level, with which assumptions."""
 
 UNITS = {
+    'mutv': dict(template='contracts/mutv.rs',
+                 what='U8 in Verus: StringLengthMutator and CharacterMutator (String and byte-string methods), any length'),
     'core': dict(template='contracts/core.rs',
                  what='U1 stack/util helpers, U2 can_emit guards (one obligation per arm), '
                       'U3 process_stack_ops effects (one obligation per arm) against the reference machine'),
@@ -112,24 +114,27 @@ PROPS = {
         assumptions=['PRNG-seed existential not decided (no contract can express it)', 'witness traces accepted by the reference machine: by inspection of contracts/witnesses.md']),
     'C15': dict(
         title='The mutation rate is honoured at its extremes',
-        verus=[], kani_quick=U8_QUICK + ['u9_rand_scalars_total'], kani_thorough=U8_THOROUGH,
+        verus=['mutv'], kani_quick=U8_QUICK + ['u9_rand_scalars_total'], kani_thorough=U8_THOROUGH,
         level='proof',
         technique='Kani (CBMC) function-level harnesses on the real mutator methods: rate 0.0 => None / output unchanged, rate 1.0 => Some, for every value and every entropy state of both sources',
         claim='For every built-in mutator method on integers, floats and memo indices: complete proof over the full value domain, every f64 rate and '
               'every entropy state (all fuzzer byte strings incl. exhausted; all PRNG outputs) that rate 0.0 yields None and rate 1.0 yields Some. '
               'Byte-string (character) and post-emission rewrite (type confusion) methods: same clauses at a stated length bound.',
-        note='String-valued mutators (StringLength, Character on String) are not yet under contract in this check (CBMC cannot finish on String code); '
-             'first-applicable-wins loop in generator/mutation.rs by inspection. Trusted: Kani/CBMC, ChaCha8 output over-approximated by kani::any().',
-        assumptions=['string mutators: gate clauses not yet machine-checked (they share should_mutate with the checked ones)']),
+        note='String/byte-string mutators (StringLength, Character) are verified in Verus for every length, with String operations (chars/take/collect/push/push_str/clone) '
+             'as assumed std specs and the rate gate should_mutate as an assumed contract over uninterpreted rate predicates (that contract is what the Kani harnesses prove through '
+             'every integer mutator). First-applicable-wins loop in generator/mutation.rs by inspection. Trusted: Kani/CBMC, ChaCha8 output over-approximated by kani::any().',
+        assumptions=['should_mutate(source, 0.0) == false and should_mutate(source, 1.0) == true are assumed in the Verus unit (proved by Kani through the integer mutators)',
+                     'String std operations used by the string mutators are assumed specs (listed in trusted_base)']),
     'C16': dict(
         title='Each mutator performs exactly its documented transformation',
-        verus=[], kani_quick=U8_QUICK, kani_thorough=U8_THOROUGH,
+        verus=['mutv'], kani_quick=U8_QUICK, kani_thorough=U8_THOROUGH,
         level='proof',
         technique='Kani (CBMC) function-level harnesses on the real mutator methods, full value domain, both entropy sources',
         claim='Complete proofs (all i32/i64/f64/usize values, all entropy states of both sources, no panic/overflow) of the transformation clause of '
               'bit-flip, boundary, off-by-one, memo-index; bounded proofs for character (bytes) and type confusion.',
-        note='String-valued transformations (StringLength both kinds, Character on String) are not yet under contract. Trusted: Kani/CBMC, ChaCha8 stub.',
-        assumptions=['StringLengthMutator and CharacterMutator::mutate_string are outside this check for now']),
+        note='String-valued transformations (StringLength both kinds, Character both kinds) are proved in Verus for every length, modulo assumed std String specs. '
+             'Type confusion: Kani, bounded. Trusted: Kani/CBMC, ChaCha8 stub.',
+        assumptions=['String std operations (chars/take/collect/push/push_str/clone) are assumed specs (listed in trusted_base)']),
     'C18': dict(
         title='Entropy adapters stay in range and never fail, even on exhausted input',
         verus=[], kani_quick=U9_QUICK, kani_thorough=U9_THOROUGH,
